@@ -1,0 +1,85 @@
+//go:build verif
+
+// Contracts for the govc verifier (see /verif/DESIGN.md). Comment-only file.
+// dsz.Bits is the deprecated twin of setz.Bits: same representation, cardinality kept in b.length.
+package dsz
+
+//@ spec member(b ref, n int) bool = 0 <= n && n/64 < len(b.set) && bit(b.set[n/64], n%64) == 1
+//@ recspec card(row seq, off int, n int) int = ite(n <= 0, 0, card(row, off, n-1) + pc64(row[off+n-1]))
+//@ spec bcard(b ref) int = card(rowof(b.set), offof(b.set), len(b.set))
+
+//@ lemma cardStore(row seq, off int, n int, i int, w int)
+//@   decreases n
+//@   ensures (off <= i && i < off + n) ==> card(store(row, i, w), off, n) == card(row, off, n) - pc64(row[i]) + pc64(w)
+//@   ensures !(off <= i && i < off + n) ==> card(store(row, i, w), off, n) == card(row, off, n)
+
+//@ lemma cardEq(r1 seq, o1 int, r2 seq, o2 int, n int)
+//@   requires forall k in 0..n: r1[o1+k] == r2[o2+k]
+//@   decreases n
+//@   ih r1, o1, r2, o2, n-1
+//@   ensures card(r1, o1, n) == card(r2, o2, n)
+
+//@ lemma cardZeros(row seq, off int, n int, m int)
+//@   requires n <= m && forall k in n..m: row[off+k] == 0
+//@   decreases m - n
+//@   ih row, off, n, m-1
+//@   ensures card(row, off, m) == card(row, off, n)
+
+//@ func Bits.Contains
+//@   ensures result == member(b, num)
+//@ func Bits.Cap
+//@   ensures result == 64*len(b.set)
+//@ func Bits.Len
+//@   inline
+
+//@ func Bits.Grow
+//@   requires n < 1073741824
+//@   modifies b.set, b.set[len(b.set):cap(b.set)]
+//@   ensures len(b.set) >= old(len(b.set)) && len(b.set) > n/64
+//@   ensures forall m: member(b, m) == old(member(b, m))
+//@   ensures bcard(b) == old(bcard(b))
+//@   at end:
+//@     apply cardEq(rowof(old(b.set)), offof(old(b.set)), rowof(b.set), offof(b.set), old(len(b.set)))
+//@     apply cardZeros(rowof(b.set), offof(b.set), old(len(b.set)), len(b.set))
+
+//@ func Bits.Add
+//@   uses cardStore
+//@   requires num < 1073741824 && b.length == bcard(b) && 0 <= b.length && b.length < 1099511627776
+//@   modifies b.length, b.set, b.set[0:cap(b.set)]
+//@   ensures member(b, num) && len(b.set) >= old(len(b.set))
+//@   ensures forall m: m != num ==> member(b, m) == old(member(b, m))
+//@   ensures b.length == bcard(b) && b.length == old(b.length) + ite(old(member(b, num)), 0, 1)
+//@   at after-call4:
+//@     apply cardEq(rowof(old(b.set)), offof(old(b.set)), rowof(b.set), offof(b.set), old(len(b.set)))
+//@     apply cardZeros(rowof(b.set), offof(b.set), old(len(b.set)), len(b.set))
+//@     assert bcard(b) == old(bcard(b))
+
+//@ func Bits.Remove
+//@   uses cardStore
+//@   requires b.length == bcard(b) && 0 <= b.length
+//@   modifies b.length, b.set[0:len(b.set)]
+//@   ensures !member(b, num)
+//@   ensures forall m: m != num ==> member(b, m) == old(member(b, m))
+//@   ensures b.length == bcard(b) && b.length == old(b.length) - ite(old(member(b, num)), 1, 0)
+
+//@ func BitsIter.Value
+//@   requires 0 <= bi.i && bi.i < 1099511627776 && 0 <= bi.j && bi.j < 64
+//@   ensures result == 64*bi.i + bi.j
+
+//@ func BitsIter.Next
+//@   requires bi.bits != nil && 0 <= bi.i && bi.i <= len(bi.bits.set) && 0 <= bi.j && bi.j <= 64 && (bi.read ==> bi.j < 64)
+//@   modifies bi.i, bi.j, bi.read
+//@   ensures 0 <= bi.i && bi.i <= len(bi.bits.set) && 0 <= bi.j && bi.j <= 64
+//@   ensures result ==> bi.i < len(bi.bits.set) && bi.j < 64 && bit(bi.bits.set[bi.i], bi.j) == 1 && bi.read
+//@   ensures !result ==> bi.i == len(bi.bits.set) && !bi.read
+//@   ensures forall k in old(bi.i)..bi.i+1: forall j in 0..64: (k < len(bi.bits.set) && (k > old(bi.i) || j >= old(bi.j) + ite(old(bi.read), 1, 0)) && (k < bi.i || j < bi.j)) ==> bit(bi.bits.set[k], j) == 0
+//@   loop 1:
+//@     invariant old(bi.i) <= bi.i && bi.i <= len(bi.bits.set) && 0 <= bi.j && bi.j <= 64 && !bi.read
+//@     invariant bi.i == old(bi.i) ==> bi.j >= old(bi.j) + ite(old(bi.read), 1, 0)
+//@     invariant forall k in old(bi.i)..bi.i+1: forall j in 0..64: (k < len(bi.bits.set) && (k > old(bi.i) || j >= old(bi.j) + ite(old(bi.read), 1, 0)) && (k < bi.i || j < bi.j)) ==> bit(bi.bits.set[k], j) == 0
+//@     decreases len(bi.bits.set) - bi.i
+//@   loop 2:
+//@     invariant old(bi.i) <= bi.i && bi.i < len(bi.bits.set) && 0 <= bi.j && bi.j <= 64 && !bi.read
+//@     invariant bi.i == old(bi.i) ==> bi.j >= old(bi.j) + ite(old(bi.read), 1, 0)
+//@     invariant forall k in old(bi.i)..bi.i+1: forall j in 0..64: (k < len(bi.bits.set) && (k > old(bi.i) || j >= old(bi.j) + ite(old(bi.read), 1, 0)) && (k < bi.i || j < bi.j)) ==> bit(bi.bits.set[k], j) == 0
+//@     decreases 64 - bi.j
